@@ -366,9 +366,9 @@ func main() {
 		}
 		c.Count("lc.exhaustive")
 	})
-	lcRounds := 20000
+	lcRounds := 100000
 	if thorough {
-		lcRounds = 120000
+		lcRounds = 600000
 	}
 	for _, n := range []int{2, 3} {
 		caseLCConc(c, n, 4, lcRounds)
